@@ -1,5 +1,6 @@
 import TorchDataVerif.Proofs.PMProgress
-/-! Stuck-state witnesses for the two known hangs of the current code (C11-a, C11-b), checked by `decide`. -/
+/-! The two situations in which `next()` used to poll forever (C11-a, C11-b; repaired in f3c1516 / ac1bf0c), as concrete
+reachable states of the model: only timeouts are enabled there, and ONE timeout step of the consumer now leads out. -/
 namespace TDV.PM
 
 /-- Boolean form of `CanMove` over the finite action list. -/
@@ -105,7 +106,7 @@ def cfgA : Cfg :=
 /-- The error travels reader → worker → sorter → consumer, is raised by the first `next()`; the second `next()`
 reaches its `get`, and every background thread sits in its blocking wait (the reader has exited). -/
 def trA : List Action :=
-  [.rInit, .cBoot, .rIsSet, .rAcq, .rEnter, .rLeave, .rPut,
+  [.rInit, .cBoot, .rIsSet, .rAcq, .rEnter, .rLeave, .rPut, .rRet,
    .wIsSet 0, .wGet 0, .wPut 0, .sIsSet, .sGet, .sHave,
    .cCall, .cIsSet, .cMpIsSet, .cChk, .cGet, .cRel,
    .wIsSet 0, .sDrain, .sIsSet,
@@ -122,7 +123,7 @@ def cfgB : Cfg :=
 def trB : List Action :=
   [.rInit, .cBoot, .rIsSet, .rAcq, .rEnter, .rLeave, .rPut,
    .wIsSet 0, .wGet 0, .wDie 0,
-   .rIsSet, .rAcq, .rEnter, .rLeave, .rPut,
+   .rIsSet, .rAcq, .rEnter, .rLeave, .rPut, .rRet,
    .sIsSet,
    .cCall, .cIsSet, .cMpIsSet, .cChk]
 
@@ -143,15 +144,15 @@ theorem sA_facts : sA.cpc = .get ∧ sA.rpc = .exited ∧ sA.errs = 1 ∧ sA.got
 theorem sB_facts : sB.cpc = .get ∧ sB.rpc = .exited ∧ sB.wk = [.dead] ∧ sB.lost = [0] ∧ sB.spc = .get ∧
     sB.sem = 0 ∧ sB.outs = [] ∧ sB.errs = 0 ∧ canMoveB cfgB sB = false := by decide
 
-/-- all states the system can ever be in once it has reached `sA` / `sB` -/
-def closureA : List State := saturate cfgA 20 [sA]
-def closureB : List State := saturate cfgB 20 [sB]
+/-- After the source error: the consumer's timeout step finds the reader gone and the semaphore full, sets both stop
+events and raises StopIteration. -/
+theorem sA_returns : (run cfgA sA [.cGetT, .cSet, .cMpSet]).map (fun s => (s.cpc, s.nstop, s.errs, s.rterr, s.stop, s.mpstop)) =
+    some (.idle, 1, 1, 0, true, true) := by decide
 
-theorem closureA_closed : isClosed cfgA closureA = true := by decide
-theorem closureB_closed : isClosed cfgB closureB = true := by decide
-theorem closureA_inNext : closureA.all (fun s => s.cpc.inNext) = true := by decide
-theorem closureB_inNext : closureB.all (fun s => s.cpc.inNext) = true := by decide
-theorem sA_mem : sA ∈ closureA := by decide
-theorem sB_mem : sB ∈ closureB := by decide
+/-- After the worker's death: the consumer's timeout step finds a worker that is not alive, tests and sets both stop
+events and raises RuntimeError. -/
+theorem sB_returns :
+    (run cfgB sB [.cGetT, .cDeadIsSet, .cDeadMpIsSet, .cDeadSet, .cDeadMpSet]).map
+      (fun s => (s.cpc, s.nstop, s.errs, s.rterr, s.stop, s.mpstop)) = some (.idle, 0, 0, 1, true, true) := by decide
 
 end TDV.PM
